@@ -520,8 +520,8 @@ class ExprOps:
             inn = [c for c in sub if c in classes]
             out = [c for c in sub if c not in classes]
             t = self.cls_in(v.term, inn)
-            return (t, SV('ref', v.term, frozenset(('ref', c, True) for c in inn)),
-                    SV('ref', v.term, frozenset(('ref', c, True) for c in out)))
+            return (t, SV('ref', v.term, frozenset(('ref', c, True) for c in inn), extra=v.extra),
+                    SV('ref', v.term, frozenset(('ref', c, True) for c in out), extra=v.extra))
         if v.kind in ('list', 'tuple', 'str', 'int', 'bool', 'dict'):
             return (TRUE if v.kind in pykinds else FALSE), None, None
         if v.kind == 'none':
